@@ -155,7 +155,112 @@ theorem sr_newRender {ex : St → BOp → St} (hex : SRex ex) {a st : St} (h : S
 theorem sr_newAsync {ex : St → BOp → St} (hex : SRex ex) {a st : St} (h : SR a st) (b : Nat) :
     SR a (newAsync ex st b) := by
   unfold newAsync
-  exact sr_finishAsync (sr_addTask (sr_runScoped hex (sr_pushEager h _ _) _ _ _) _) _
+  have h1 : SR a (setMutDepth (pushEager st b EffKind.async) (st.mutDepth + 1)) := (sr_pushEager h _ _).react rfl
+  have h2 := sr_runScoped hex h1 st.effs.length (eagerOwner st) b
+  exact sr_finishAsync (sr_addTask (SR.react (st' := setMutDepth _ st.mutDepth) h2 rfl) _) _
+
+theorem sr_releaseOwner {a st : St} (h : SR a st) (o : Nat) : SR a (releaseOwner st o) := by
+  unfold releaseOwner
+  split
+  · exact h
+  · exact CR.dropOwner h o
+
+theorem sr_immBegin {a st : St} (h : SR a st) (e : Nat) (er : EffRec) : SR a (immBegin st e er) := h.react rfl
+
+theorem sr_immEnd {a st : St} (h : SR a st) (e rc : Nat) : SR a (immEnd st e rc) := by
+  unfold immEnd
+  split
+  · exact h
+  · exact h.react rfl
+
+theorem sr_immRelease {a st : St} (h : SR a st) (e : Nat) : SR a (immRelease st e) := by
+  unfold immRelease
+  split
+  · split
+    · exact sr_releaseOwner h _
+    · exact h
+  · exact h
+
+theorem sr_immUpdate {ex : St → BOp → St} (hex : SRex ex) {a st : St} (h : SR a st) (e : Nat) :
+    SR a (immUpdate ex st e) := by
+  unfold immUpdate
+  split
+  · exact h
+  · next er _ =>
+    split
+    · exact h
+    · simp only
+      refine sr_immRelease (sr_immEnd ?_ _ _) _
+      refine SR.react (st := runScoped ex _ e er.owner er.body) (sr_runScoped hex ?_ _ _ _) rfl
+      exact (sr_immBegin h e er).react rfl
+
+theorem sr_immScope {a st : St} (h : SR a st) (e : Nat) : SR a (immScope st e) := by
+  unfold immScope
+  split
+  · exact h
+  · next er _ =>
+    split
+    · exact SR.react (st := st.lift (regCleanup · (immTag e) false (some er.owner)))
+        (h.prim (CorePrim.regCleanup _ _ _ _)) rfl
+    · exact sr_releaseOwner (h.react rfl) _
+
+theorem sr_newImm {ex : St → BOp → St} (hex : SRex ex) {a st : St} (h : SR a st) (b : Nat) (sc mutf : Bool) :
+    SR a (newImm ex st b sc mutf) := by
+  unfold newImm
+  simp only
+  split
+  · exact sr_immScope (sr_immUpdate hex (sr_pushEager h _ _) _) _
+  · exact sr_immUpdate hex (sr_pushEager h _ _) _
+
+theorem sr_markSub {ex : St → BOp → St} (hex : SRex ex) (a st : St) (s : Sub) (h : SR a st) :
+    SR a (markSub ex st s) := by
+  unfold markSub
+  split
+  · split
+    · split
+      · split
+        · exact sr_immUpdate hex (h.react rfl) _
+        · exact h.react rfl
+      · exact h
+    · exact h
+  · split
+    · split
+      · exact h.react rfl
+      · exact h
+    · exact h
+
+theorem sr_setSig {ex : St → BOp → St} (hex : SRex ex) {a st : St} (h : SR a st) (s : Nat) (v : Int) :
+    SR a (setSig ex st s v) := by
+  unfold setSig
+  split
+  · split
+    · exact sr_foldl _ (sr_markSub hex) _ (h.react rfl)
+    · exact h
+  · exact h
+
+theorem sr_writeSig {ex : St → BOp → St} (hex : SRex ex) {a st : St} (h : SR a st) (s v : Nat) :
+    SR a (writeSig ex st s v) := by
+  unfold writeSig
+  split
+  · exact h
+  · split
+    · split
+      · exact sr_setSig hex h _ _
+      · exact h
+    · exact h
+
+theorem CR.captureOwner {a b : Core} (h : CoreReach a b) : CoreReach a (captureOwner b).1 := by
+  unfold Leptos.Owner.captureOwner
+  split
+  · exact h
+  · exact .tail h (CorePrim.newOwnerUnder b _ _ (fun x h => by cases h))
+
+theorem sr_newTask {a st : St} (h : SR a st) (b : Nat) (cancel : Bool) : SR a (newTask st b cancel) := by
+  unfold newTask
+  simp only
+  split
+  · exact CR.captureOwner (.tail h (CorePrim.regCleanup _ _ _ _))
+  · exact CR.captureOwner h
 
 theorem sr_runMemo {ex : St → BOp → St} (hex : SRex ex) {a st : St} (h : SR a st) (m : Nat) :
     SR a (runMemo ex st m) := by
@@ -213,6 +318,13 @@ theorem sr_execWith {ex : St → BOp → St} (hex : SRex ex) : SRex (execWith ex
   | watch b hb imm => exact sr_newEffect h b _
   | render b => exact sr_newRender hex h b
   | async b => exact sr_newAsync hex h b
+  | imm b sc mutf => exact sr_newImm hex h b sc mutf
+  | write s v => exact sr_writeSig hex h s v
+  | spawn b cancel =>
+    simp only [execWith]
+    split
+    · exact h
+    · exact sr_newTask h b cancel
 
 theorem sr_exec (f : Nat) : SRex (exec f) := by
   induction f with
@@ -244,6 +356,9 @@ theorem sr_execHandlerTok (a st : St) (op : BOp) (h : SR a st) : SR a (execHandl
   | watch b hb imm => exact h
   | render b => exact h
   | async b => exact h
+  | imm b sc mutf => exact h
+  | write s v => exact h
+  | spawn b cancel => exact h
 
 theorem sr_runHandlerOld {a st : St} (h : SR a st) (e hb : Nat) : SR a (runHandlerOld st e hb) := by
   unfold runHandlerOld
@@ -271,7 +386,7 @@ theorem sr_runHandler {a st : St} (h : SR a st) (e o hb : Nat) : SR a (runHandle
 theorem sr_endTask {a st : St} (h : SR a st) (e : Nat) : SR a (endTask st e) := by
   unfold endTask
   split
-  · next er _ => exact CR.dropOwner h er.owner
+  · next er _ => exact sr_releaseOwner (h.react rfl) er.owner
   · exact h
 
 theorem sr_prepRun {a st : St} (h : SR a st) (e : Nat) (er : EffRec) : SR a (prepRun st e er) := by
@@ -293,22 +408,74 @@ theorem sr_runEffect {a st : St} (h : SR a st) (e : Nat) (er : EffRec) : SR a (r
   unfold runEffect
   exact sr_afterRun (sr_runScoped sr_execBOp (sr_prepRun h _ _) _ _ _) _ _
 
-theorem sr_pollEff {a st : St} (h : SR a st) (e : Nat) : SR a (pollEff st e) := by
-  unfold pollEff
+theorem sr_runSeg {ex : St → BOp → St} (hex : SRex ex) {a st : St} (h : SR a st) (e : Nat) (er : EffRec) :
+    SR a (runSeg ex st e er) := by
+  unfold runSeg
+  simp only
+  have key : ∀ (body : List BOp) (S0 : St),
+      S0.toCore = logEv (pushCur st.toCore er.owner) (Ev.r e) →
+      ∀ x, CoreReach a.toCore (popCur (logEv (List.foldl ex S0 body).toCore (Ev.s e x)) 1) := by
+    intro body S0 h0 x
+    refine CR.popCur (CR.logEv (sr_foldl _ hex body (a := a) (st := S0) ?_) _ rfl) 1
+    unfold SR; rw [h0]
+    exact CR.logEv (CR.pushCur h _) _ rfl
+  exact key _ _ rfl _
+
+theorem sr_finishTask {a st : St} (h : SR a st) (e : Nat) : SR a (finishTask st e) := by
+  unfold finishTask
+  split
+  · next er _ => exact sr_releaseOwner (h.react rfl) er.owner
+  · exact h
+
+theorem sr_afterSeg {a st : St} (h : SR a st) (e : Nat) : SR a (afterSeg st e) := by
+  unfold afterSeg
+  split
+  · split
+    · exact sr_finishTask h _
+    · exact h.react rfl
+  · exact h
+
+theorem sr_pollTask {a st : St} (h : SR a st) (e : Nat) (er : EffRec) : SR a (pollTask st e er) := by
+  unfold pollTask
+  split
+  · exact sr_finishTask h _
+  · exact sr_afterSeg (sr_runSeg sr_execBOp (h.react rfl) _ _) _
+
+theorem sr_pollIter {a st : St} (h : SR a st) (e : Nat) : SR a (pollIter st e) := by
+  unfold pollIter
   split
   · exact h
   · next er _ =>
     split
     · exact h
     · split
-      · exact sr_endTask h _
+      · exact sr_pollTask h _ _
       · split
-        · exact h.react rfl
+        · exact sr_endTask h _
         · split
           · exact h.react rfl
           · split
-            · exact sr_endTask (sr_runEffect h _ _) _
-            · exact sr_runEffect h _ _
+            · exact h.react rfl
+            · split
+              · exact sr_endTask (sr_runEffect h _ _) _
+              · exact sr_runEffect h _ _
+
+theorem sr_rewake {a st : St} (h : SR a st) (e : Nat) : SR a (rewake st e) := by
+  unfold rewake
+  split
+  · exact h.react rfl
+  · exact h
+
+theorem sr_pollLoop (n : Nat) {a st : St} (h : SR a st) (e : Nat) : SR a (pollLoop n st e) := by
+  induction n generalizing st with
+  | zero => exact h
+  | succ n ih =>
+    simp only [pollLoop]
+    split
+    · exact sr_rewake (ih (sr_pollIter h e)) e
+    · exact sr_pollIter h e
+
+theorem sr_pollEff {a st : St} (h : SR a st) (e : Nat) : SR a (pollEff st e) := sr_pollLoop _ h e
 
 theorem sr_pollNth {a st : St} (h : SR a st) (i : Nat) : SR a (pollNth st i) := by
   unfold pollNth
@@ -326,32 +493,10 @@ theorem sr_runIdle (n : Nat) {a st : St} (h : SR a st) : SR a (runIdle n st) := 
     · exact h
     · exact ih (sr_pollNth h _)
 
-theorem sr_markSub (a st : St) (s : Sub) (h : SR a st) : SR a (markSub st s) := by
-  unfold markSub
-  split
-  · split
-    · split
-      · exact h.react rfl
-      · exact h
-    · exact h
-  · split
-    · split
-      · exact h.react rfl
-      · exact h
-    · exact h
-
-theorem sr_setSig {a st : St} (h : SR a st) (s : Nat) (v : Int) : SR a (setSig st s v) := by
-  unfold setSig
-  split
-  · split
-    · exact sr_foldl _ sr_markSub _ (h.react rfl)
-    · exact h
-  · exact h
-
 theorem sr_dropHandle (a st : St) (hd : Nat) (h : SR a st) : SR a (dropHandle st hd) := by
   unfold dropHandle
   split
-  · next o _ => exact CR.dropOwner (h.react (st := st) rfl) o
+  · next o _ => exact sr_releaseOwner (h.react rfl) o
   · exact h
 
 theorem sr_runWc {a st : St} (h : SR a st) (o b : Nat) : SR a (runWc st o b) := by
@@ -371,7 +516,11 @@ theorem sr_disposeEff {a st st' : St} (h : SR a st) {i : Nat} (hd : disposeEff s
   · next er _ =>
     split at hd
     · next k _ => simp only [Option.some.injEq] at hd; subst hd; exact CR.disposeKey h k
-    · simp only [Option.some.injEq] at hd; subst hd; exact h.react rfl
+    · split at hd
+      · cases hd
+      · split at hd
+        · simp only [Option.some.injEq] at hd; subst hd; exact sr_releaseOwner (h.react rfl) _
+        · simp only [Option.some.injEq] at hd; subst hd; exact h.react rfl
   · cases hd
 
 /-- every op line is a composition of core primitives -/
@@ -434,7 +583,7 @@ theorem sr_stepOp {a st st' : St} {op : Op} (h0 : SR a st) (h : stepOp st op = s
   | set s v =>
     simp only [stepOp] at h
     split at h
-    · simp only [Option.some.injEq] at h; subst h; exact sr_setSig h0 _ _
+    · simp only [Option.some.injEq] at h; subst h; exact sr_setSig sr_execBOp h0 _ _
     · cases h
   | pause hh =>
     simp only [stepOp] at h
